@@ -106,14 +106,18 @@ def run_case(case, chooser=None):
             joined[0] += 1
             nq = 0
             while joined[0] < len(ids):
-                if k in case.get("chatter", ()) and a is not None:
+                chat_now = k in case.get("chatter", ())
+                if -1 in case.get("chatter", ()) and a is not None:
+                    # "relay + child": whoever sits behind a relay, and the relay itself, ask at the same time
+                    chat_now = N.level_of(a) >= 2 or any(N.parent_of(net.nodes[j].node_address) == a for j in ids if j != i and net.nodes[j].node_address != O("4444"))
+                if chat_now and a is not None:
                     # a connected node keeps asking the master while others are still joining
                     # ("asking never disturbs the master")
                     q = (n.lookup_address(i), a) if nq % 2 == 0 else (n.lookup_node_id(a), i)
                     nq += 1
                     obs["chatter"].append((i, "lookup_address" if nq % 2 else "lookup_node_id") + q)
                     post(i, "lookup")
-                    net.serve(ctx, i, 11 * MS, hook)
+                    net.serve(ctx, i, case.get("chatter_gap_ms", 11) * MS, hook)
                 else:
                     net.serve(ctx, i, 5 * MS, hook)
             if obs["table_at_barrier"] is None:
@@ -629,9 +633,11 @@ def build_items(tier, seed):
         cases.append(dict(ids=[11, 12, 13, 14], offsets=[OFFSETS[o] for o in off], cost=oi % 4, lat=(oi // 4) % 3, seed=seed, mlen=oi))
     # connected nodes keep looking themselves up at the master while the others join (also past the five level-1 slots)
     for ci, (idl, step) in enumerate((([41, 42, 43], 40), ([7, 8, 9, 10, 11, 12], 30), ([21, 22, 23, 24, 25, 26, 27], 60), ([7, 8, 9, 10, 11, 12], 5))):
-        for chat in ([0], [0, 1], [4] if len(idl) > 5 else [1]):
+        for chat in ([0], [0, 1], [4] if len(idl) > 5 else [1]) + (([-1],) if len(idl) > 6 else ()):
+            # (last variant, 7 nodes: the node(s) behind a relay and the relay itself keep asking at the same time while the last one joins)
             for (c_, l_) in ((0, 0), (2, 1)) if tier == "quick" else ((0, 0), (2, 1), (1, 2), (3, 0)):
                 cases.append(dict(ids=list(idl), offsets=[j * step * MS for j in range(len(idl))], cost=c_, lat=l_, seed=seed, mlen=5, tail=300, chatter=list(chat)))
+
     # a connected node that refuses children must stay silent (and clean) when others poll its level
     cases.append(dict(ids=[21, 22, 23, 24, 25, 26, 27, 28], offsets=[j * 40 * MS for j in range(8)], cost=0, lat=0, seed=seed, mlen=7, tail=300,
                       no_children=[22, 23], send_to=1))
